@@ -110,12 +110,34 @@ class Tüp(_R):
 _OBJ_CLASSES = {"R": _R, "Lock": Lock, "Tup": Tüp}
 
 
+class EmptyMailbox:
+    """a falsy user object (awaitable-like with __len__ == 0)"""
+    def __len__(self):
+        return 0
+
+    def __repr__(self):
+        return "<EmptyMailbox>"
+
+
+class FalsyError(ValueError):
+    def __bool__(self):
+        return False
+
+
+# objects that are falsy but not None: the code must treat them like any other object wherever it
+# tests `is not None` (root, leaf, child root, context obj, error)
+FALSY = {"0": lambda: 0, "''": lambda: "", "[]": lambda: [], "()": lambda: (), "{}": lambda: {},
+         "False": lambda: False, "0.0": lambda: 0.0, "Empty": EmptyMailbox}
+
+
 def mk_obj(spec):
     """spec: None | [classkey, reprtext] | ["int", n]"""
     if spec is None:
         return None
     if spec[0] == "int":
         return spec[1]
+    if spec[0] == "falsy":
+        return FALSY[spec[1]]()
     return _OBJ_CLASSES[spec[0]](spec[1])
 
 
@@ -127,6 +149,8 @@ def mk_err(spec):
         return ValueError(spec[1])
     if kind == "K":
         return KeyError(spec[1])
+    if kind == "falsy":
+        return FalsyError(spec[1])
     if kind == "tb":
         try:
             world()["_boom"](spec[1])
@@ -273,7 +297,7 @@ DESCRS = ["d", "stack.enter_context(cm)", "─ tricky", ". tricky", " ", "　", 
 REPRS = ["<R>", "<task 'a'>", "─ r", ". r", "| r", "║ r", " ", "", "répr", "+ x", "  Error while extracting stack:"]
 NL_TEXTS = ["<ML\nline2>", "d1\nd2", "\n", "x\n"]
 ERRS = [["V", "bad"], ["K", "kéy"], ["V", "two\nlines"], ["V", "a\n\nb"], ["tb", "boom"],
-        ["cause", "inner", "outer"], ["V", ""], ["V", "  "]]
+        ["cause", "inner", "outer"], ["V", ""], ["V", "  "], ["falsy", "falsy error"]]
 # every character str.splitlines() breaks at (finding F20, fixed): ordinary cases
 SEP_ERRS = [["V", "a\rb"], ["V", "e\r\nf\r"], ["V", "a\x0bb\x0cc"], ["V", "x\x1cy\x1dz\x1e"],
             ["V", "p\x85q\u2028r\u2029s"], ["K", "k\rk"], ["V", "\r\n\x85\n"], ["cause", "i\u2028n", "o\x0cut\r"]]
@@ -298,6 +322,8 @@ def gen_obj(rng, nl=False, allow_none=True):
         return None
     if r < 0.35:
         return ["int", rng.randrange(0, 50)]
+    if r < 0.5:
+        return ["falsy", _pick(rng, sorted(FALSY))]
     text = _pick(rng, NL_TEXTS) if (nl and rng.random() < 0.5) else _pick(rng, REPRS)
     return [_pick(rng, ["R", "Lock", "Tup"]), text]
 
@@ -344,7 +370,7 @@ def gen_stack(rng, depth, width, nl=False, as_inner=False, as_child=False):
 def has_newline_payload(spec) -> bool:
     """F12's signature: some payload (root/leaf repr, description, varname) contains a newline"""
     def obj(o):
-        return o is not None and o[0] != "int" and "\n" in o[1]
+        return o is not None and o[0] not in ("int", "falsy") and "\n" in o[1]
 
     def st(s):
         return obj(s["root"]) or obj(s["leaf"]) or any(fr(f) for f in s["frames"])
@@ -428,3 +454,19 @@ def build(desc):
         st = build_stack(desc["spec"])
     _last[0], _last[1] = key, st
     return st
+
+
+def falsy_specials():
+    """None vs falsy, at every place where _types.py tests `is not None` or truthiness:
+    root, leaf, child-stack root, context obj, error, description, varname, start_line, inner stack"""
+    fr = lambda ctxs=(): {"t": "f0", "lineno": 7, "hide": False, "hide_line": False, "ctxs": list(ctxs)}
+    for k in sorted(FALSY):
+        o = ["falsy", k]
+        yield {"root": o, "frames": [], "leaf": o, "error": None}
+        yield {"root": None, "frames": [fr()], "leaf": o, "error": ["falsy", "e"]}
+        yield {"root": o, "frames": [fr()], "leaf": None, "error": None}
+        c = dict(_ctx(None, kids=[["s", {"root": o, "frames": [], "leaf": o, "error": None}],
+                                  ["s", {"root": o, "frames": [fr()], "leaf": o, "error": ["falsy", "x"]}],
+                                  ["c", dict(_ctx(""), obj=o, varname="")]],
+                      inner={"root": o, "frames": [], "leaf": o, "error": None}), obj=o, varname=None, start_line=0)
+        yield {"root": None, "frames": [fr([c])], "leaf": o, "error": None}
